@@ -16,7 +16,11 @@ root = os.path.join(runner.SCRATCH, f"dev-{os.getpid()}"); os.makedirs(root, exi
 import registry
 pre = registry.PREPARE.get(a.crate)
 cdir = pre(root) if pre else os.path.join(runner.KANI_DIR, a.crate)
-metas, w = kplus.codegen(cdir, os.path.join(runner.CACHE, f"target-{a.crate}"), os.path.join(root, "codegen.log"))
+import re as _re
+_src = "".join(open(os.path.join(cdir, "src", f)).read() for f in os.listdir(os.path.join(cdir, "src")) if f.endswith(".rs"))
+_all = set(_re.findall(r"(?:fn|proof!\(|harness!\(|exp_harness!\()\s*([a-z][a-z0-9_]*)", _src))
+_sel = [h for h in _all if a.subs and any(x.split("::")[-1] in h for x in a.subs)] or None
+metas, w = kplus.codegen(cdir, os.path.join(runner.CACHE, f"target-{a.crate}"), os.path.join(root, "codegen.log"), harnesses=_sel)
 print(f"codegen {w:.0f}s, {len(metas)} harnesses")
 sel = [n for n in sorted(metas) if not a.subs or any(s in n for s in a.subs)]
 budget = runner.Budget(runner.MEM_BUDGET_GB)
